@@ -252,6 +252,7 @@ of_check_prng (void)
 void of_rfc5170_srand (UINT64 s)
 {
 	OF_ENTER_FUNCTION
+	OF_VERIF_EVENT ("srand", NULL, (long) s, 0, 0, 0);
 	if ( (s >= 1) && (s <= 0x7FFFFFFE))
 		of_seed = s;
 	else
@@ -291,6 +292,7 @@ of_rfc5170_rand (UINT64	maxv)
 	if (lo > 0x7FFFFFFF)
 		lo -= 0x7FFFFFFF;
 	of_seed = (UINT64) lo;
+	OF_VERIF_EVENT ("rand", NULL, (long) maxv, (long) of_seed, 0, 0);
 	//OF_EXIT_FUNCTION
 	return ( (UINT64)
 		 ( (double) of_seed * (double) maxv / (double) 0x7FFFFFFF));
